@@ -336,10 +336,15 @@ def whole_value_overwrites(prog, adt_names, skip=lambda b: False):
 def field_escapes(prog, owner_adt, field, skip=lambda b: False):
     """Sites that create a way to modify `owner_adt.field` other than a direct assignment: a `&mut` borrow or a raw
     pointer taken to the field (or to a place inside it). Used with writer inventories of plain (non-atomic) counters."""
-    from ..core import norm
+    from ..core import norm, last_seg
+    import re
     out = []
     for b in prog.all_bodies():
         if skip(b):
+            continue
+        if last_seg(b.name) in ("project", "project_ref", "project_replace") and owner_adt in b.name and \
+                not prog.callers_of("^" + re.escape(b.name) + "$"):
+            # #[pin_project] generates these projections; one that nobody calls hands out no reference
             continue
         for s in b.assigns():
             r = s.node["r"]
